@@ -183,3 +183,15 @@ def level_pattern_models(seed, shapes, tag='lvl'):
       links.append(l)
     out.append(spec_of(links))
   return out
+
+
+def orthogonal_stacks(spec):
+  """True if the axes of every joint stack are mutually orthogonal."""
+  import numpy as _np
+  for l in spec['links']:
+    a = _np.array(l['axes'], float).reshape(-1, 3)
+    for i in range(len(a)):
+      for j in range(i):
+        if abs(a[i] @ a[j]) > 1e-9:
+          return False
+  return True
